@@ -399,8 +399,11 @@ class ArgumentParser:
                     flag_name = option["flags"][0]
                     # Copy, so that actions extending the list do not
                     # modify the compiler definition shared by all commands.
+                    # A string names a single pass.
                     if isinstance(default_value, list):
                         default_value = default_value.copy()
+                    elif isinstance(default_value, str):
+                        default_value = [default_value]
                     namespace._passes[flag_name] = default_value
             parser.add_argument(*option["flags"], **kwargs)
 
